@@ -123,7 +123,7 @@ func syntaxCase(c *Ctx, spec string, ds *declSet) {
 	v := ref.CheckSpec(spec, ds.o, ds.a)
 	c.Count("evaluations", 1)
 	key := fmt.Sprintf("spec=%q decl={%s}", spec, ds.name)
-	cs := func() Case { return Case{"spec": spec, "decl": ds.name} }
+	cs := func() Case { return Case{"spec": spec, "spec_hex": hx(spec), "decl": ds.name} }
 	var pe *lexer.ParseError
 	if o.Panicked {
 		pe, _ = o.PanicVal.(*lexer.ParseError)
